@@ -65,33 +65,118 @@ def single (pol : Policy) (w : Bool) (op fn : String) (fw : Bool) (a : CStr) : L
 /-- part after the last '/' (`cp = strrchr (from, '/'); cp ? cp + 1 : from`) -/
 def baseName (p : CStr) : CStr := (p.reverse.takeWhile (· ≠ '/')).reverse
 
-/-- `get_dir ()` after its `check_valid_path`, flags = 0: `temppath` is the path without a trailing "/" or
-    "/." (`listDir`); when `stat (temppath)` fails and nothing was cut off, the last component is a
-    pattern and the directory part (`parentDir`, "." without a slash) is listed. -/
-def getDirFs (ex : List CStr) (P : CStr) : List Ev :=
-  let temp := listDir P
+/-- the key (list of names from the root) of the directory a path resolves to; `none`: not a directory -/
+def resolveDir (extra : List CStr) (p : CStr) : Option (List String) :=
+  if p = [] then none
+  else
+    let tree := treeWith extra
+    let rec go (cur : List String) (k : Kind) : List CStr → Option (List String)
+      | [] => if k = .dir then some cur else none
+      | c :: cs =>
+        if k ≠ .dir then none
+        else if c = [] ∨ c = dot then go cur k cs
+        else if c = dotdot then none
+        else
+          let nxt := cur ++ [unstr c]
+          match tree.find? (·.1 == nxt) with
+          | some (_, k') => go nxt k' cs
+          | none => none
+    go [] .dir (comps p)
+
+def insertSorted (x : String) : List String → List String
+  | [] => [x]
+  | y :: r => if x < y then x :: y :: r else if x == y then y :: r else y :: insertSorted x r
+
+/-- the names `readdir` delivers for the directory with key `cur` (without "." and ".."), sorted (the harness
+    sorts the per-entry calls: readdir order is the kernel's) -/
+def dirNames (extra : List CStr) (cur : List String) : List String :=
+  ((treeWith extra).filterMap (fun e =>
+    if e.1.length = cur.length + 1 ∧ e.1.take cur.length = cur then e.1.getLast? else none)).foldr insertSorted []
+
+/-- `static int match_string (char *match, char *str)` of file_utils.c: '?', '*', '\\' -/
+def matchString : Nat → CStr → CStr → Bool
+  | 0, _, _ => false
+  | n + 1, m, s =>
+    if s = [] ∧ m = [] then true else
+    match m with
+    | [] => false                                    -- case '\0'
+    | '?' :: m' => match s with
+      | [] => false
+      | _ :: s' => matchString n m' s'
+    | '*' :: m' =>
+      if m' = [] then true
+      else (List.range s.length).any (fun i => matchString n m' (s.drop i))
+    | c :: m' =>
+      let (c, m') := if c = '\\' then (match m' with
+        | [] => (none, [])
+        | d :: m'' => (some d, m'')) else (some c, m')
+      match c, s with
+      | none, _ => false
+      | some c, d :: s' => if c = d then matchString n m' s' else false
+      | some _, [] => false
+
+/-- per-entry `stat (temppath "/" d_name)` of `get_dir (path, -1)`, in sorted order.  The repaired code skips
+    the entries "." and ".." also when a pattern is matched (before: `get_dir ("/*", -1)` did `stat ("./..")`). -/
+def entryStats (ex : List CStr) (flags1 : Bool) (dir : CStr) (pat : Option CStr) : List Ev :=
+  if !flags1 then [] else
+  match resolveDir ex dir with
+  | none => []
+  | some cur =>
+    ((dirNames ex cur).filter (fun n =>
+      -- the entries "." and ".." are skipped (repaired code: also under a pattern); a d_name has no '/'
+      n ≠ "." && n ≠ ".." && !('/' ∈ n.toList) && match pat with
+      | none => true
+      | some m => matchString (m.length + n.length + 2) m n.toList)).map
+      (fun n => Ev.fs "stat-entry" false (dir ++ ['/'] ++ n.toList))
+
+/-- `get_dir ()` after its `check_valid_path`: a path longer than MAX_PATH_LEN is refused (repaired code; before,
+    `strncpy` cut it to fit `temppath` and the directory named by the PREFIX was listed);
+    `temppath` is the path without a trailing "/" or "/." (`listDir`); when `stat (temppath)` fails and nothing
+    was cut off, the last component is a pattern and the directory part (`parentDir`, "." without a slash) is
+    listed.  `flags1`: the second argument is -1, every listed entry is `stat`ed. -/
+def getDirFs (ex : List CStr) (P : CStr) (flags1 : Bool := false) : List Ev :=
+  if P.length > NV.Gen.C15.maxPathLen then [] else
+  let temp := listDir (P.take (NV.Gen.C15.getDirTemppathSize - 1))      -- strncpy (temppath, path, size - 1)
   let cut := decide (temp ≠ P)
   match lookup ex temp with
   | none =>
     if cut then [.fs "stat" false temp]
-    else [.fs "stat" false temp, .fs "opendir" false (parentDir temp)]
+    else [.fs "stat" false temp, .fs "opendir" false (parentDir temp)] ++
+      entryStats ex flags1 (parentDir temp) (some (baseName temp))
   | some _ =>
     if !cut ∧ temp ≠ dot then [.fs "stat" false temp]
-    else [.fs "stat" false temp, .fs "opendir" false temp]
+    else [.fs "stat" false temp, .fs "opendir" false temp] ++ entryStats ex flags1 temp none
 
-def getDir (pol : Policy) (ex : List CStr) (a : CStr) : List Ev :=
+def getDir (pol : Policy) (ex : List CStr) (a : CStr) (flags1 : Bool := false) : List Ev :=
   let (e, r) := ask pol false a "stat"
   e ++ match r with
     | none => []
-    | some P => getDirFs ex P
+    | some P => getDirFs ex P flags1
 
-def statEfun (pol : Policy) (ex : List CStr) (a : CStr) : List Ev :=
+def statEfun (pol : Policy) (ex : List CStr) (a : CStr) (flags1 : Bool := false) : List Ev :=
   let (e, r) := ask pol false a "stat"
   e ++ match r with
     | none => []
-    | some P => .fs "stat" false P :: (if lookup ex P = some .file then [] else getDir pol ex a)
+    | some P => .fs "stat" false P :: (if lookup ex P = some .file then [] else getDir pol ex a flags1)
 
-/-- `do_rename (fr, t, F_RENAME | F_LINK)` -/
+/-- `do_rename`: the source with its trailing slashes stripped (copied into `newfrom`) -/
+def renameSrc (from_ : CStr) : CStr :=
+  if from_.length > 1 ∧ from_.getLast? = some '/' then stripTrailSlash from_ else from_
+
+/-- does the stripped copy fit `newfrom` (`n >= sizeof newfrom` is the error "File path too long." of the repaired
+    code; before, the `memcpy` overran the stack buffer)?  Without a trailing slash nothing is copied. -/
+def renameSrcFits (from_ : CStr) : Bool :=
+  !(decide (from_.length > 1 ∧ from_.getLast? = some '/') &&
+    decide ((stripTrailSlash from_).length ≥ NV.Gen.C15.renameNewfromSize))
+
+/-- `do_move (from, to, flag)` unless the into-directory target did not fit its buffer -/
+def moveEvents (sym tooLong : Bool) (from' target : CStr) : List Ev :=
+  if tooLong then []
+  else if sym then [.fs "symlink" true from', .fs "symlink-to" true target]
+  else [.fs "rename" true from', .fs "rename-to" true target]
+
+/-- `do_rename (fr, t, F_RENAME | F_LINK)`.  Buffers: the source without its trailing slashes is copied into
+    `newfrom`, the into-directory target is built in `newto` with a checked `snprintf`. -/
 def renameEfun (pol : Policy) (ex : List CStr) (sym : Bool) (a b : CStr) : List Ev :=
   let (e1, r1) := ask pol true a "rename"
   match r1 with
@@ -101,7 +186,8 @@ def renameEfun (pol : Policy) (ex : List CStr) (sym : Bool) (a b : CStr) : List 
     match r2 with
     | none => e1 ++ e2
     | some to =>
-      let from' := if from_.length > 1 ∧ from_.getLast? = some '/' then stripTrailSlash from_ else from_
+      if !renameSrcFits from_ then e1 ++ e2 else                     -- error ("File path too long.")
+      let from' := renameSrc from_
       let (e3, r3) := ask pol false to "file_size"            -- file_size (to)
       if (pol.verdict false to).raises then e1 ++ e2 ++ e3 else     -- an error in the master ends the efun here
       let st := match r3 with
@@ -112,10 +198,14 @@ def renameEfun (pol : Policy) (ex : List CStr) (sym : Bool) (a b : CStr) : List 
         | some q => decide (lookup ex q = some .dir)
       let target := if isDir then to ++ ['/'] ++ baseName from' else to
       e1 ++ e2 ++ e3 ++ st ++
-        (if sym then [.fs "symlink" true from', .fs "symlink-to" true target]
-         else [.fs "rename" true from', .fs "rename-to" true target])
+        moveEvents sym (isDir && decide (target.length ≥ NV.Gen.C15.renameNewtoSize)) from' target
 
-/-- `copy_file (from, to)` -/
+/-- the `open (to, O_WRONLY | O_CREAT | O_TRUNC)` of `copy_file` unless the target did not fit `newto` -/
+def cpTail (tooLong : Bool) (target : CStr) : List Ev :=
+  if tooLong then [] else [.fs "open" true target]
+
+/-- `copy_file (from, to)`; the into-directory target is built in `newto` (repaired code: checked `snprintf`,
+    the copy fails when it does not fit; before, `sprintf` overran the stack buffer) -/
 def cpEfun (pol : Policy) (ex : List CStr) (a b : CStr) : List Ev :=
   let (e1, r1) := ask pol false a "cp"
   match r1 with
@@ -128,8 +218,9 @@ def cpEfun (pol : Policy) (ex : List CStr) (a b : CStr) : List Ev :=
       e1 ++ e2 ++ .fs "open" false from_ ::
         (if lookup ex from_ = none then []
          else
-           let target := if lookup ex to = some .dir then to ++ ['/'] ++ baseName from_ else to
-           [.fs "stat" false to, .fs "open" true target])
+           let isDir : Bool := decide (lookup ex to = some .dir)
+           let target := if isDir then to ++ ['/'] ++ baseName from_ else to
+           .fs "stat" false to :: cpTail (isDir && decide (target.length ≥ NV.Gen.C15.cpNewtoSize)) target)
 
 def endsWith (s suf : CStr) : Bool := s.length ≥ suf.length && s.drop (s.length - suf.length) == suf
 
@@ -185,13 +276,24 @@ def edLines (st : EdSt) (ex : List CStr) (p : CStr) : Option Nat :=
 def edWritable (st : EdSt) (ex : List CStr) (p : CStr) : Bool :=
   (st.files.any (·.1 = p)) || (lookup ex (parentDir p) = some .dir && lookup ex p ≠ some .dir)
 
-/-- `getfn (writeflg)`: the name given, else "/" + stored name; a name that does not start with '/' goes through
-    the master's make_path_absolute (the verification master answers "/d/" + name); then
+/-- what fits the editor's `static char file[MAXFNAME]` (repaired `getfn`: a longer approved path is refused;
+    before, `strncpy` cut it and the editor continued with a DIFFERENT path than the one approved) -/
+def edFit (r : Option CStr) : Option CStr :=
+  match r with
+  | none => none
+  | some P => if P.length ≥ NV.Gen.C15.edMaxFname then none else some P
+
+/-- `getfn (writeflg)`: the name given, else "/" + stored name; a name that does not fit `file[MAXFNAME]` is
+    refused (repaired code; before, the copy loop and the `strcpy` of the stored name overran the buffer); a name
+    that does not start with '/' goes through the master's make_path_absolute (the verification master answers
+    "/d/" + name; `strncpy` cuts the answer to MAXFNAME - 1 BEFORE it is checked); then
     `check_valid_path (file, current_editor, "ed_start", writeflg)` — ALWAYS, also for the stored name. -/
 def edGetfn (pol : Policy) (st : EdSt) (w : Bool) (arg : CStr) : List Ev × Option CStr :=
+  if arg = [] ∧ st.fname.length + 1 ≥ NV.Gen.C15.edMaxFname then ([], none) else
+  if arg.length ≥ NV.Gen.C15.edMaxFname then ([], none) else
   let file := if arg = [] then '/' :: st.fname else arg
-  let file := if file.head? = some '/' then file else str "/d/" ++ file
-  ask pol w file "ed_start"
+  let file := if file.head? = some '/' then file else (str "/d/" ++ file).take (NV.Gen.C15.edMaxFname - 1)
+  ((ask pol w file "ed_start").1, edFit (ask pol w file "ed_start").2)
 
 /-- the libc call of a command that got its file name from `getfn` (`io`: does the command reach doread/dowrite) -/
 def edIo (r : Option CStr) (io w : Bool) : List Ev :=
@@ -213,7 +315,8 @@ def edStep (pol : Policy) (ex : List CStr) (st : EdSt) (c : EdCmd) : List Ev × 
   | .start file =>
     let (e, r) := ask pol false file "ed_start"
     (e ++ edIo r true false,
-     { st with active := true, fname := r.getD [], changed := false,
+     { st with active := true, fname := (r.getD []).take (NV.Gen.C15.edMaxFname - 1),   -- strncpy (P_FNAME, ..)
+               changed := false,
                nlines := match r with
                  | none => 0
                  | some p => (edLines st ex p).getD 0 })
@@ -297,6 +400,8 @@ def efunEvents (pol : Policy) (ex : List CStr) (efun : String) (a b : CStr) : Li
   | "dump_prog" => single pol true "dumpallobj" "fopen" true a
   | "get_dir" => getDir pol ex a
   | "stat" => statEfun pol ex a
+  | "get_dir1" => getDir pol ex a true                       -- get_dir (a, -1)
+  | "stat1" => statEfun pol ex a true                        -- stat (a, -1)
   | "rename" => renameEfun pol ex false a b
   | "link" => .note s!"valid_link {showP a} {showP b}" :: renameEfun pol ex true a b   -- master valid_link first
   | "cp" => cpEfun pol ex a b
@@ -339,6 +444,35 @@ def loadEvents (ex : List CStr) (name : CStr) : List Ev × Bool :=
       | some p => [Ev.fs "stat" false p]) ++ (match a.opened with
       | none => []
       | some p => [.fs "open" false p]), a.opened.isSome)
+
+/-- `ldb name` (SaveBinaryDir configured; the source `<strip_name name>.c` with `#pragma save_binary` exists whenever
+    that is a safe path): the object is loaded twice — save_binary, then load_binary.  The harness prints no libc
+    call on a safe path in this mode (lib/lpc/program/binaries.c is C17's ground, its call sequence is not pinned
+    here), so the model trace is the summary line: the binary exists afterwards iff the name is loadable. -/
+def saveBinaryDir : CStr := str "/bin"     -- props/c15.py: `SaveBinaryDir /bin` in the conf of these runs
+
+def joinPath : List CStr → CStr
+  | [] => []
+  | [c] => c
+  | c :: cs => c ++ '/' :: joinPath cs
+
+/-- can the harness create the source file `p` in the fixture (no directory prefix is a plain file, `p` itself
+    is not a directory)? -/
+def creatable (ex : List CStr) (p : CStr) : Bool :=
+  let cs := comps p
+  ((List.range cs.length).all (fun k => k = 0 || lookup ex (joinPath (cs.take k)) ≠ some .file)) &&
+    lookup ex p ≠ some .dir
+
+def binaryEvents (name : CStr) : List Ev :=
+  let saved : Bool := match loadRealName name with
+    | none => false
+    | some rn =>
+      legalPath rn && creatable [] rn &&
+        -- repaired save_binary / load_binary: SaveBinaryDir "/" name (+ NUL) must fit file_name_buf[200] resp. one
+        -- half of load_binary's file_name_buf[400]; otherwise nothing is saved (before: stack overrun)
+        decide (saveBinaryDir.length + rn.length + 2 ≤ NV.Gen.C15.saveBinaryNameSize) &&
+        decide (saveBinaryDir.length + rn.length + 2 ≤ NV.Gen.C15.loadBinaryNameSize / 2)
+  [.note s!"binary {showP name} saved={if saved then 1 else 0}"]
 
 /-- opens made for `#include "name"` inside `base`: tried in order until one exists -/
 def includeOpens (ex : List CStr) (base name : CStr) : List Ev :=
